@@ -191,9 +191,18 @@ func strMap(r *rand.Rand, utf8Only bool, maxKeys int, maxLong int) []refmcap.KV 
 	}
 	seen := map[string]bool{}
 	var out []refmcap.KV
+	family := ""
+	if n >= 2 && r.Intn(3) == 0 {
+		// keys that share a long common prefix and have equal length (sorting shortcuts on a key prefix
+		// or on the length leave their order to chance)
+		family = []string{"calibration/camera_", "sensor.frame.id.", "xxxxxxxxxxxxxxxx"}[r.Intn(3)]
+	}
 	for i := 0; i < n; i++ {
 		k := Str(r, utf8Only, 40)
-		if r.Intn(2) == 0 {
+		if family != "" {
+			k = fmt.Sprintf("%s%03d", family, r.Intn(200))
+		}
+		if family == "" && r.Intn(2) == 0 {
 			k = fmt.Sprintf("k%d_%s", r.Intn(1000), k)
 		}
 		if seen[k] {
@@ -490,7 +499,15 @@ func RandWorkload(r *rand.Rand, s Shape) *Workload {
 		mkChannel()
 	}
 	if s.HugeRecords {
-		huge := func() []byte { return randBytes(r, 1<<20+1+r.Intn(300<<10)) }
+		big := r.Intn(4) == 0 // one huge case in four goes beyond 4 MiB with incompressible content
+		huge := func() []byte {
+			if big {
+				b := make([]byte, 4<<20+1+r.Intn(1<<20))
+				r.Read(b)
+				return b
+			}
+			return randBytes(r, 1<<20+1+r.Intn(300<<10))
+		}
 		var kinds []int
 		for i := range w.Ops {
 			it := &w.Ops[i]
